@@ -110,8 +110,8 @@ func judgeC02(c *C02Case, cx *Ctx) *Violation {
 		cmpJudged++
 		w1, on1 := kit.Wind(sol, q)
 		w2, on2 := kit.Wind(ref, q)
-		if !on1 && !on2 && (w1 != 0) == (w2 != 0) {
-			continue
+		if on1 || on2 || (w1 != 0) == (w2 != 0) {
+			continue // (a solution edge far from every input edge is C01's business, not a difference between options)
 		}
 		if k := attribute(q, pooled); k != "" && kfActive("C02", kfKeyForEvent(k)) {
 			att++
